@@ -585,7 +585,8 @@ impl Connection {
         let result;
         {
             let online = self.state.assert_online();
-            if buffer.len() > MAX_PAYLOAD {
+            // The chunk header can't carry sizes of 1024 or more.
+            if buffer.len() > MAX_PAYLOAD || buffer.len() >> protocol::CHUNK_SIZE_BITS != 0 {
                 return Err(Error::TooLongData);
             }
             if !online.packet.can_fit_chunk(buffer, vital) {
